@@ -24,8 +24,17 @@ def extraction(unit, repo):
     pieces_out = []
     per_piece = []
     const_ctx = []
+    paths = sorted([(k.split("::"), v) for k, v in u.get("paths", {}).items()], key=lambda kv: -len(kv[0]))
     for src in u["sources"]:
         pieces, top, ftoks = X.extract_file(repo, src["file"], src["select"])
+        prefix = src.get("prefix")
+        pnames = {}
+        if prefix:
+            for it in top:
+                if it.kw in ("fn", "const", "static") and X.cfg_enabled(it.attrs):
+                    pnames[it.name] = it.kw
+                elif it.kw in ("struct", "enum", "type") and it.name in src.get("prefix_types", []):
+                    pnames[it.name] = "type"
         const_ctx += X.all_const_items(top, ftoks)
         opts_by_sel = {}
         for s in src["select"]:
@@ -37,6 +46,10 @@ def extraction(unit, repo):
                 if p.selector == k or p.selector.startswith(k + " ") or p.selector.startswith(k + "{"):
                     opts = v
             toks = R.apply_item_rewrites([t.clone() for t in p.toks], log, opts)
+            if paths:
+                toks = R.r13_paths(toks, log, paths)
+            if prefix:
+                toks = R.r13_prefix_defs(toks, log, prefix, pnames)
             for t in toks:   # inner doc comments are only legal at the top of a file
                 if "//!" in t.ws or "/*!" in t.ws:
                     t.ws = t.ws.replace("//!", "// !").replace("/*!", "/* !")
